@@ -303,6 +303,44 @@ def r4_mutators(chk, prog, eng, L):
     return n_spec, n_cases, und, unspecified
 
 
+def r4_sprintf(chk, prog, eng, L):
+    """sprintf(): the text is what vsnprintf produced, cut at the capacity: length == min( L, result) (0 for an
+    error result) and byte i of the string is byte i of the formatter's output"""
+    cls = 'celma::common::FixedString<%d>' % L
+    fs = [f for f in prog.functions if f.cls == cls and f.short == 'sprintf']
+    if not fs:
+        return 0
+    f = fs[0]
+    mark = len(eng.obligations)
+    finals = eng.analyse(f)
+    del eng.obligations[mark:]
+    tag = 'sprintf(const char *, ...), L=%d' % L
+    for s in finals:
+        if s.status not in ('normal', 'return'):
+            continue
+        vs = s.fields.get(('ghost', 'vsn'))
+        newlen = s.fields.get(('this', 'mLength'))
+        if not vs or not isinstance(newlen, Lin):
+            chk.check(False, 'R4', f.name, 'the formatter result is tracked [%s]' % tag, f.loc(), repr(vs))
+            continue
+        r = vs[0]
+        exact(chk, 'R4', f, tag, 'length is min( capacity, length of the formatted text), 0 on error', s, newlen,
+              [([le(r, -1)], lin(0)), ([ge(r, 0), le(r, L)], r), ([ge(r, L + 1)], lin(L))])
+        i = eng.fresh('pos', s, 'unsigned long')
+        s2 = s.copy()
+        s2.assume(ge(i, 0), lt(i, newlen))
+        bad = None
+        if s2.ok():
+            for d, sa in eng.content_at(s2, 'this.mString', i):
+                ok = d[0] == 'opaque' and d[1] == 'vsnprintf' and entails(sa.cons, ge(d[2], i)) and \
+                    entails(sa.cons, le(d[2], i))
+                if not ok:
+                    bad = bad or 'character %r is %r, not byte %r of the formatted text' % (i, d, i)
+        chk.check(bad is None, 'R4', f.name, 'every character is the corresponding byte of the formatted text [%s]' % tag,
+                  f.loc(), bad or '')
+    return 1
+
+
 def r4_swap(chk, prog, eng, L):
     cls = 'celma::common::FixedString<%d>' % L
     fs = [f for f in prog.functions if f.cls == cls and f.short == 'swap']
@@ -784,6 +822,7 @@ def run(chk):
     for L in grid:
         n_spec, n_cases, und, unspecified = r4_mutators(chk, prog, eng, L)
         r4_swap(chk, prog, eng, L)
+        r4_sprintf(chk, prog, eng, L)
         chk.samples.append({'capacity': L, 'mutators_specified': n_spec, 'position_cases': n_cases,
                             'undecided_position_cases': und, 'unspecified': unspecified})
     chk.rule('R5', 'simple observers return what std::string returns (length, element access, substr, copy)', 24)
